@@ -25,7 +25,7 @@ PID = "C18"
 
 CAPS = [0.0, 1000.0, 3000.0]
 SOCS = [0.0, 5.0, 20.0, 50.0, 80.0, 100.0]
-LIMITS = [(20.0, 80.0), (0.0, 100.0), (50.0, 50.0)]
+LIMITS = [(20.0, 80.0), (0.0, 100.0), (50.0, 50.0), (49.5, 50.25)]  # the last: a window less than one point wide
 PATTERNS_Q = [(), ("cap",), ("soc",), ("lo",), ("hi",), ("soc", "cap"), ("absent",)]
 PATTERNS_T = PATTERNS_Q + [("lo", "hi"), ("soc", "lo"), ("cap", "hi"), ("cap", "soc", "lo", "hi")]
 
